@@ -2,7 +2,7 @@
 definitional sum-product."""
 import itertools
 import math
-from oracles import denote, sumproduct, dual
+from oracles import denote, sumproduct, dual, lfp_linear
 from oracles.c01_run import weight_tables
 from gen import grammars
 
@@ -95,9 +95,20 @@ def run_recursive_backward(B, case, weights_flat, zvals, cot):
     ctx.out_labels = out_labels
     ctx.saved_tensors = tuple(fgg.factors[n].weights.physical for n in in_names)
     ov = MultiTensor(FGGMultiShape(fgg, out_labels), B.sr)
+    dead = set(case.get('dead', []))        # nonterminals of the SCC without a value (structurally unproductive): absent from out_values
+    all_scc, all_cot = scc, cot
     for n, z in zip(scc, zvals):
-        ov[els[n]] = B.indices.PatternedTensor(B.tensor([z], ()), default=B.pyzero)
+        if n not in dead:
+            ov[els[n]] = B.indices.PatternedTensor(B.tensor([z], ()), default=B.pyzero)
     ctx.out_values = ov
+    live = [i for i, n in enumerate(scc) if n not in dead]
+    scc = [scc[i] for i in live]
+    zvals = [zvals[i] for i in live]
+    cot = [cot[i] for i in live]
+    if B.kind == 'log':
+        # Log semiring: unknowns u = log z, parameters theta = log w.  With D = diag(z):  dF/du = D^-1 J D, dF/dtheta_k = D^-1 dG/dw_k w_k,
+        # so the adjoint solves  lam' = J^T lam' + D^-1 c  and  grad_k = w_k sum_i lam'_i dG_i/dw_k
+        cot = [B.sdiv(c, B.lin(z)) for c, z in zip(cot, zvals)]
     # oracle: duals seeded on z and w
     D = dual.make(B.sadd, B.smul)
     W = {}
@@ -126,7 +137,7 @@ def run_recursive_backward(B, case, weights_flat, zvals, cot):
         lam_num = [B.sadd(B.smul(B.ssub(1.0, d), cot[0]), B.smul(c_, cot[1])),
                    B.sadd(B.smul(b, cot[0]), B.smul(B.ssub(1.0, a), cot[1]))]
     B.assume_all(pre)
-    grad_out = [B.tensor([c], ()) for c in cot[:m]]
+    grad_out = [B.tensor([c], ()) for c in all_cot[:len(all_scc)]]
     res = SumProduct.backward(ctx, None, *grad_out)
     grads = res[4:]
     items = []
@@ -142,7 +153,52 @@ def run_recursive_backward(B, case, weights_flat, zvals, cot):
                 if dg is None:
                     continue
                 acc = B.sadd(acc, B.smul(lam_num[i], dg))
+            if B.kind == 'log':
+                acc = B.smul(B.lin(weights_flat[name][k]), acc)
             lhs.append(B.smul(got[k], det))
             rhs.append(acc)
         items.append((f'grad[{name}]*det', lhs, rhs))
+    return items
+
+
+def run_linear_recursive(B, case, weights_flat, cot):
+    """forward + backward through the public API on a linearly recursive grammar whose recursion weights are concrete
+    (dyadic) numbers; oracle: least fixed point and its derivatives from oracles/lfp_linear.py"""
+    spec = case['spec']
+    shapes = grammars.weight_shapes(spec)
+    tensors = {}
+    for name, shape in shapes.items():
+        t = B.tensor(weights_flat[name], shape)
+        t.requires_grad_(True)
+        tensors[name] = t
+    fgg = grammars.build_fgg(spec, B.fggs, tensors)
+    D, W = oracle_jacobian(B, spec, weights_flat)
+    with B.oracle_ctx():
+        Z = lfp_linear.solve(B, spec, W)[spec['start']]
+    if B.kind == 'log':
+        B.assume_positive([z.v for z in Z.values()])
+    B.reset_tape()
+    z = B.fggs.sum_product(fgg, method=case['method'], semiring=B.sr, **case.get('opts', {}))
+    zd = z.to_dense()
+    shape = tuple(zd.size())
+    idx = list(itertools.product(*[range(n) for n in shape]))
+    items = [('value', [B.lin(x) for x in denote.dense_of_tensor(zd)[1]], [Z[ix].v for ix in idx])]
+    C = B.tensor(cot[:max(1, math.prod(shape))], shape)
+    B.backward(zd, C)
+    for name, sh in shapes.items():
+        g = tensors[name].grad
+        n = math.prod(sh)
+        want = []
+        for k in range(n):
+            acc = 0.0
+            for j, ix in enumerate(idx):
+                dz = Z[ix].d.get(('w', name, k))
+                if dz is None:
+                    continue
+                if B.kind == 'log':
+                    dz = B.sdiv(B.smul(B.lin(weights_flat[name][k]), dz), Z[ix].v)
+                acc = B.sadd(acc, B.smul(cot[j], dz))
+            want.append(acc)
+        got = [0.0] * n if g is None else denote.dense_of_tensor(g)[1]
+        items.append((f'grad[{name}]', got, want))
     return items
